@@ -18,6 +18,13 @@ class PathEnd(Exception):
 class Unsupported(Exception):
     """the executor met a construct it does not model; the enclosing obligations become 'unsupported' (exit 2)"""
 
+    def __init__(self, *a):
+        Exception.__init__(self, *a)
+        import os
+        if os.environ.get('VERIF_TRACE_UNSUPPORTED'):
+            import traceback
+            traceback.print_stack(limit=int(os.environ['VERIF_TRACE_UNSUPPORTED']))
+
 
 class Obligation(object):
     def __init__(self, name, hyps, goal, kind='post', where='', meta=None, hints=()):
